@@ -624,7 +624,7 @@ def arm_infeasible(body, bb):
     return True
 
 
-def bool_polarity(body, local, start_bb, start_idx, target_bb, max_states=20000):
+def bool_polarity(body, local, start_bb, start_idx, target_bb, max_states=20000, avoid=()):
     """Does `target_bb` lie on the true side or on the false side of the boolean held by `local` (defined at statement
     start_idx of start_bb, or by the call terminating start_bb when start_idx is None)?  The CFG is explored twice, once per
     value, with constant propagation over booleans (moves, Not, constants assigned in the arms of a `match` / `matches!`, & and |):
@@ -641,7 +641,7 @@ def bool_polarity(body, local, start_bb, start_idx, target_bb, max_states=20000)
         while todo:
             bb, idx, envt = todo.pop()
             key = (bb, idx, envt)
-            if key in seen or body.is_cleanup(bb):
+            if key in seen or body.is_cleanup(bb) or bb in avoid:
                 continue
             seen.add(key)
             n += 1
